@@ -180,93 +180,115 @@ theorem erase_map_obj (K : List Nat) (h : Nat) (hnd : K.Nodup) :
 
 /-! ## `read` -/
 
-def cleanFiles (fs : List P.File) : Prop :=
-  ∀ f ∈ fs, ∀ (_ : P.parseFile f = .readerFail), False
+/-- the ledger a caller holding `cur` under handle `h` sees above the base `L` -/
+def baseLedger (h : Nat) (L : List Blk) (cur : Option P.Msa) : List Blk :=
+  if cur.isSome then Blk.obj h :: L else L
+
+theorem readInput_fst (h : Nat) (f : P.File) (cur : Option P.Msa) (w w' : World) :
+    (readInput P h f cur w).1 = (readInput P h f cur w').1 := by
+  unfold readInput
+  cases P.parseFile f with
+  | seqs m =>
+    cases cur with
+    | none => simp only; cases P.nonEmpty m <;> rfl
+    | some a =>
+      simp only
+      cases hok : (P.mergeMsa a m).2
+      · simp
+      · simp only [Bool.not_true, Bool.false_eq_true, if_false]; cases P.nonEmpty (P.mergeMsa a m).1 <;> rfl
+  | _ => rfl
+
+theorem readInput_g (h : Nat) (f : P.File) (cur : Option P.Msa) (w : World) :
+    (readInput P h f cur w).2.g = w.g := by
+  unfold readInput
+  cases P.parseFile f with
+  | seqs m =>
+    cases cur with
+    | none => simp only; cases P.nonEmpty m <;> rfl
+    | some a =>
+      simp only
+      cases hok : (P.mergeMsa a m).2
+      · simp
+      · simp only [Bool.not_true, Bool.false_eq_true, if_false]; cases P.nonEmpty (P.mergeMsa a m).1 <;> rfl
+  | _ => rfl
+
+/-- **every path of `kalign_read_input` frees what it allocated**: afterwards the ledger holds the object
+iff `*msa` is non-NULL -/
+theorem readInput_ledger (h : Nat) (L : List Blk) (f : P.File) (cur : Option P.Msa) (w : World)
+    (hw : w.ledger = baseLedger P h L cur) :
+    (readInput P h f cur w).2.ledger = baseLedger P h L (readInput P h f cur w).1.2 := by
+  unfold readInput
+  cases hp : P.parseFile f with
+  | openFail => simp [hw]
+  | missing => simp [hw]
+  | nothing => simp [hw]
+  | readerFail => simp [hw]
+  | detectFail => simp [hw]
+  | seqs m =>
+    cases cur with
+    | none =>
+      have hw0 : w.ledger = L := by simpa [baseLedger] using hw
+      simp only
+      cases P.nonEmpty m <;> simp [hw0, baseLedger]
+    | some a =>
+      have hw0 : w.ledger = Blk.obj h :: L := by simpa [baseLedger] using hw
+      simp only
+      cases hok : (P.mergeMsa a m).2
+      · simp [hw0, baseLedger]
+      · simp only [Bool.not_true, Bool.false_eq_true, if_false]
+        cases P.nonEmpty (P.mergeMsa a m).1 <;> simp [hw0, baseLedger]
 
 theorem readFiles_fst (h : Nat) (fs : List P.File) (acc : Option P.Msa) (w w' : World) :
     (readFiles P h fs acc w).1 = (readFiles P h fs acc w').1 := by
   induction fs generalizing acc w w' with
   | nil => rfl
   | cons f fs ih =>
-    simp only [readFiles]
-    cases hp : P.parseFile f with
-    | readerFail => rfl
-    | nothing => exact ih _ _ _
-    | seqs m =>
-      cases acc with
-      | none =>
-        simp only
-        cases P.enough m
-        · rfl
-        · exact ih _ _ _
-      | some a =>
-        simp only
-        cases P.enough (P.mergeMsa a m)
-        · rfl
-        · exact ih _ _ _
+    have e := readInput_fst P h f acc w w'
+    rcases hr : readInput P h f acc w with ⟨⟨ok, c⟩, w1⟩
+    rcases hr' : readInput P h f acc w' with ⟨⟨ok', c'⟩, w2⟩
+    rw [hr, hr'] at e
+    simp only [Prod.mk.injEq] at e
+    obtain ⟨rfl, rfl⟩ := e
+    simp only [readFiles, hr, hr']
+    cases ok
+    · rfl
+    · exact ih _ _ _
 
 theorem readFiles_g (h : Nat) (fs : List P.File) (acc : Option P.Msa) (w : World) :
     (readFiles P h fs acc w).2.g = w.g := by
   induction fs generalizing acc w with
   | nil => rfl
   | cons f fs ih =>
-    simp only [readFiles]
-    cases hp : P.parseFile f with
-    | readerFail => cases acc <;> rfl
-    | nothing => simp only; rw [ih]; rfl
-    | seqs m =>
-      cases acc with
-      | none =>
-        simp only
-        cases P.enough m
-        · rfl
-        · simp only [if_true]; rw [ih]; rfl
-      | some a =>
-        simp only
-        cases P.enough (P.mergeMsa a m)
-        · rfl
-        · simp only [if_true]; rw [ih]; rfl
+    have e := readInput_g P h f acc w
+    rcases hr : readInput P h f acc w with ⟨⟨ok, c⟩, w1⟩
+    rw [hr] at e
+    simp only [readFiles, hr]
+    cases ok
+    · cases c <;> exact e
+    · simp only; rw [ih]; exact e
 
-/-- ledger effect of the read loop when no format reader fails -/
+/-- ledger effect of the read loop -/
 theorem readFiles_ledger (h : Nat) (L : List Blk) (fs : List P.File) (acc : Option P.Msa) (w : World)
-    (hc : cleanFiles P fs) (hw : w.ledger = if acc.isSome then Blk.obj h :: L else L) :
+    (hw : w.ledger = baseLedger P h L acc) :
     (∃ m, (readFiles P h fs acc w).1 = .done (some m) ∧ (readFiles P h fs acc w).2.ledger = Blk.obj h :: L) ∨
     ((readFiles P h fs acc w).1 = .done none ∧ (readFiles P h fs acc w).2.ledger = L) ∨
     ((readFiles P h fs acc w).1 = .failed ∧ (readFiles P h fs acc w).2.ledger = L) := by
   induction fs generalizing acc w with
   | nil =>
     cases acc with
-    | none => exact Or.inr (Or.inl ⟨rfl, (by simpa using hw : w.ledger = L)⟩)
-    | some a => exact Or.inl ⟨a, rfl, (by simpa using hw : w.ledger = Blk.obj h :: L)⟩
+    | none => exact Or.inr (Or.inl ⟨rfl, (by simpa [baseLedger] using hw : w.ledger = L)⟩)
+    | some a => exact Or.inl ⟨a, rfl, (by simpa [baseLedger] using hw : w.ledger = Blk.obj h :: L)⟩
   | cons f fs ih =>
-    have hc' : cleanFiles P fs := fun g hg => hc g (List.mem_cons_of_mem _ hg)
-    simp only [readFiles]
-    cases hp : P.parseFile f with
-    | readerFail => exact absurd hp (fun e => hc f (by simp) e)
-    | nothing =>
-      simp only
-      apply ih _ _ hc'
-      simp [hw]
-    | seqs m =>
-      cases acc with
-      | none =>
-        simp only
-        have hw0 : w.ledger = L := by simpa using hw
-        cases he : P.enough m
-        · simp only [Bool.false_eq_true, if_false]
-          right; right; simp [hw0]
-        · simp only [if_true]
-          apply ih _ _ hc'
-          simp [hw0]
-      | some a =>
-        simp only
-        have hw0 : w.ledger = Blk.obj h :: L := by simpa using hw
-        cases he : P.enough (P.mergeMsa a m)
-        · simp only [Bool.false_eq_true, if_false]
-          right; right; simp [hw0]
-        · simp only [if_true]
-          apply ih _ _ hc'
-          simp [hw0]
+    have hl := readInput_ledger P h L f acc w hw
+    rcases hr : readInput P h f acc w with ⟨⟨ok, c⟩, w1⟩
+    rw [hr] at hl
+    simp only [readFiles, hr]
+    cases ok
+    · right; right
+      cases c with
+      | none => exact ⟨rfl, by simpa [baseLedger] using hl⟩
+      | some a => refine ⟨rfl, ?_⟩; simp only at hl ⊢; simp [hl, baseLedger]
+    · exact ih _ _ hl
 
 end Kalign.Api
 
@@ -282,12 +304,6 @@ structure Inv (s : State P) : Prop where
 
 theorem inv_init (g0 : Globals) : Inv P (State.init P g0) :=
   ⟨rfl, List.nodup_nil, fun _ h => by simp [State.init, State.handles] at h⟩
-
-theorem clean_read (files : List P.File) (hc : (Op.read files : Op P).clean = true) : cleanFiles P files := by
-  intro f hf e
-  simp only [Op.clean, Bool.not_eq_true', List.any_eq_false] at hc
-  have := hc f hf
-  simp [e] at this
 
 theorem inv_push (s : State P) (hi : Inv P s) (o : Obj P) (w : World)
     (hw : w.ledger = Blk.obj s.next :: s.w.ledger) :
@@ -312,10 +328,10 @@ theorem inv_same (s : State P) (hi : Inv P s) (w : World) (heap : List (Nat × O
   · simp only [State.handles, hh]; exact hi.nodup
   · intro h hm; simp only [State.handles, hh] at hm; exact hi.lt h hm
 
-theorem step_inv (s : State P) (op : Op P) (hi : Inv P s) (hc : op.clean = true) : Inv P (step P s op).2 := by
+theorem step_inv (s : State P) (op : Op P) (hi : Inv P s) : Inv P (step P s op).2 := by
   cases op with
   | read files =>
-    have hl := readFiles_ledger P s.next s.w.ledger files none s.w (clean_read P files hc) (by simp)
+    have hl := readFiles_ledger P s.next s.w.ledger files none s.w (by simp [baseLedger])
     simp only [step]
     rcases hr : readFiles P s.next files none s.w with ⟨oc, w⟩
     rw [hr] at hl
@@ -414,13 +430,12 @@ theorem after_append (s : State P) (ops ops' : List (Op P)) :
   | nil => rfl
   | cons op ops ih => simp only [List.cons_append, after_cons, ih]
 
-theorem after_inv (s : State P) (ops : List (Op P)) (hi : Inv P s) (hc : ∀ op ∈ ops, op.clean = true) :
-    Inv P (after P s ops) := by
+theorem after_inv (s : State P) (ops : List (Op P)) (hi : Inv P s) : Inv P (after P s ops) := by
   induction ops generalizing s with
   | nil => exact hi
   | cons op ops ih =>
     rw [after_cons]
-    exact ih _ (step_inv P s op hi (hc op (by simp))) (fun o ho => hc o (List.mem_cons_of_mem _ ho))
+    exact ih _ (step_inv P s op hi)
 
 end Kalign.Api
 
